@@ -319,13 +319,38 @@ def cmd_checks(args):
             print('checks %d/%d  m%d %s' % (n + 1, len(todo), i, {p: r['rc'] for p, r in res.items()}), flush=True)
 
 
+def cmd_recheck(args):
+    """re-run the checks (as they are now) for every survivor that is neither caught nor triaged in seeded/mutation/triage.json"""
+    surv = json.load(open(os.path.join(WORK, 'survivors.json')))
+    rp = os.path.join(WORK, 'results.json')
+    done = {int(k): v for k, v in json.load(open(rp)).items()} if os.path.exists(rp) else {}
+    tri = json.load(open(os.path.join(VERIF, 'seeded', 'mutation', 'triage.json')))
+    todo = [(m, args.tier) for m in surv if (str(m['id']) not in tri or any(r['rc'] not in (0, 1) for r in done.get(m['id'], {}).values())) and not (m['id'] in done and any(r['rc'] == 1 for r in done[m['id']].values()))
+            and not done.get(m['id'], {}).get('_rechecked')]
+    print('recheck: %d mutants' % len(todo), flush=True)
+    with cf.ThreadPoolExecutor(args.j) as ex:
+        futs = [ex.submit(run_checks, job) for job in todo]
+        for n, f in enumerate(cf.as_completed(futs)):
+            i, res = f.result()
+            res['_rechecked'] = dict(rc=max([r['rc'] for r in res.values()] or [0]) if any(r['rc'] == 1 for r in res.values()) else 0, first='')
+            done[i] = res
+            json.dump(done, open(rp, 'w'))
+            print('recheck %d/%d  m%d %s' % (n + 1, len(todo), i, {p: r['rc'] for p, r in res.items() if p != '_rechecked'}), flush=True)
+
+
 def cmd_report(args):
     surv = {m['id']: m for m in json.load(open(os.path.join(WORK, 'survivors.json')))}
     done = {int(k): v for k, v in json.load(open(os.path.join(WORK, 'results.json'))).items()}
     caught = incon = missed = 0
     rows = []
+    tri = {}
+    tp = os.path.join(VERIF, 'seeded', 'mutation', 'triage.json')
+    if os.path.exists(tp):
+        tri = json.load(open(tp))
+    triaged = 0
     for i, res in sorted(done.items()):
         m = surv[i]
+        res = {p: r for p, r in res.items() if p != '_rechecked'}
         rcs = [r['rc'] for r in res.values()]
         if 1 in rcs:
             caught += 1
@@ -333,13 +358,16 @@ def cmd_report(args):
         elif any(rc not in (0,) for rc in rcs):
             incon += 1
             verdict = 'inconclusive ' + ','.join('%s=%s' % (p, r['rc']) for p, r in res.items() if r['rc'] != 0)
+        elif str(i) in tri:
+            triaged += 1
+            verdict = 'triaged: ' + tri[str(i)]
         else:
             missed += 1
             verdict = 'NOT CAUGHT by ' + ','.join(res)
         rows.append((verdict, m))
-    print('survivors checked: %d   caught %d   inconclusive %d   not caught %d' % (len(done), caught, incon, missed))
+    print('survivors checked: %d   caught %d   inconclusive %d   triaged equivalent/out of scope %d   not caught %d' % (len(done), caught, incon, triaged, missed))
     for verdict, m in rows:
-        if args.all or not verdict.startswith('caught'):
+        if args.all or not (verdict.startswith('caught') or verdict.startswith('triaged')):
             print('m%-4d %-28s %s:%d %s  [%s] %r -> %r' % (m['id'], verdict[:60], m['func'], m['line'], m['op'], ','.join(m['props']), m['old'][:50], m['new'][:50]))
 
 
@@ -350,5 +378,6 @@ if __name__ == '__main__':
     t = sub.add_parser('tests'); t.add_argument('-j', type=int, default=8)
     c = sub.add_parser('checks'); c.add_argument('-j', type=int, default=3); c.add_argument('--tier', default='quick'); c.add_argument('--max', type=int, default=0)
     r = sub.add_parser('report'); r.add_argument('--all', action='store_true')
+    k = sub.add_parser('recheck'); k.add_argument('-j', type=int, default=4); k.add_argument('--tier', default='quick')
     a = ap.parse_args()
-    {'gen': cmd_gen, 'tests': cmd_tests, 'checks': cmd_checks, 'report': cmd_report}[a.cmd](a)
+    {'gen': cmd_gen, 'tests': cmd_tests, 'checks': cmd_checks, 'report': cmd_report, 'recheck': cmd_recheck}[a.cmd](a)
